@@ -13,7 +13,7 @@ func init() {
 }
 
 type hSeqRec struct {
-	ev [hMaxEv]struct {
+	ev [40]struct {
 		e     Entity
 		types event.Subscription
 		add   Mask
@@ -26,7 +26,7 @@ type hSeqRec struct {
 func (r *hSeqRec) Subscriptions() event.Subscription { return event.All }
 func (r *hSeqRec) Components() *Mask                 { return nil }
 func (r *hSeqRec) Notify(w *World, e EntityEvent) {
-	vAssume(r.n < hMaxEv)
+	vBound(r.n < 40, "events<=40")
 	r.ev[r.n].e, r.ev[r.n].types, r.ev[r.n].add, r.ev[r.n].rem, r.ev[r.n].tgt = e.Entity, e.EventTypes, e.Added, e.Removed, e.OldTarget
 	r.n++
 }
@@ -84,6 +84,25 @@ func twinStep(x1, x2 *hW, op int) {
 	case 7:
 		x1.opReset()
 		x2.opReset()
+	case 9: // Reset, then relation tables are re-created for new parents (retired tables are re-used)
+		s := sets[3+vChoice("set", 2)]
+		for _, x := range [2]*hW{x1, x2} {
+			// two more tables of the same component set with different targets
+			x.opNewEntity(0)
+			x.opNewEntity(0)
+			x.opBuilderNew(s, hRelOf(s), true, x.h[x.n-2], false)
+			x.opBuilderNew(s, hRelOf(s), true, x.h[x.n-2], false)
+			x.opReset()
+			x.opNewEntity(0)
+			x.opNewEntity(0)
+			x.opNewEntity(0)
+		}
+		order := [3][3]int{{0, 1, 2}, {2, 0, 1}, {1, 2, 0}}[vChoice("order", 3)]
+		for _, k := range order {
+			for _, x := range [2]*hW{x1, x2} {
+				x.opBuilderNew(s, hRelOf(s), true, x.h[k], false)
+			}
+		}
 	case 8: // batch exchange through a filter
 		f, t := x1.pickFilter("filter")
 		add, rem := x1.pickBatchXchg(f, t, false)
@@ -125,7 +144,7 @@ func HC13_Determinism() {
 	x2.prefix(pf)
 	steps := 1 + vTier()
 	for s := 0; s < steps; s++ {
-		twinStep(x1, x2, vChoice("op", 9))
+		twinStep(x1, x2, vChoice("op", 10))
 	}
 	for i := 0; i < x1.n; i++ {
 		vAssert(x1.h[i] == x2.h[i], "nondeterminism: two identical histories issue different handles")
